@@ -1,8 +1,9 @@
 ------------------------- MODULE MC_Subscribe -------------------------
 (* Bounded instance of Subscribe: every log shape over offsets 0..N-1     *)
 (* (any subset retained = dense / compacted / trimmed / empty, every      *)
-(* segmentation into at most MaxSegs segments, every HW, read-only or     *)
-(* not) x every request, followed by growth steps and further loop runs.  *)
+(* segmentation into at most MaxSegs segments - the last of which may be  *)
+(* an empty active segment, base offset = log end -, every HW, read-only  *)
+(* or not) x every request, followed by growth steps and further loop runs.  *)
 EXTENDS Subscribe, SubscribeReqs, TLC
 
 CONSTANTS N, MaxSegs, MaxOps, Ids, TakeNs
@@ -17,19 +18,33 @@ AscSeq(S) == IF S = {} THEN <<>> ELSE LET m == MinS(S) IN <<m>> \o AscSeq(S \ {m
 \* segment base offsets possible for the retained offsets q: a base is the next
 \* offset at the time the segment was rolled, so it lies between the last offset
 \* of the previous segment + 1 and the first retained offset of its own segment
-Layouts(q) ==
+LayoutsM(q, m) ==
   IF q = <<>> THEN {<<0>>}
   ELSE LET n == Len(q)
            lo(i) == IF i = 1 THEN 0 ELSE q[i - 1] + 1
        IN UNION { LET st == AscSeq({1} \cup C) IN
                   { [k \in 1..Len(st) |-> IF f[k] THEN q[st[k]] ELSE lo(st[k])] : f \in [1..Len(st) -> BOOLEAN] }
-                  : C \in {D \in SUBSET (2..n) : Cardinality(D) < MaxSegs} }
+                  : C \in {D \in SUBSET (2..n) : Cardinality(D) < m} }
+Layouts(q) == LayoutsM(q, MaxSegs)
+
+\* Every message gone (retention deleted every segment before the empty active one).  NOT part of Shapes yet:
+\* on these logs the subscribe path as coded violates StepsOK (a forward subscription whose stop position is
+\* at or below the HW keeps waiting until the next publish instead of ending) and the real code does the same
+\* (design_notes/C10.md, round 5, open follow-up): including them needs a taint flag / known-finding entry first.
+AllGone ==
+  UNION { { [log |-> <<>>, segs |-> <<b>>, hw |-> h, ro |-> r] : h \in {-1, b - 1}, r \in BOOLEAN } : b \in 1..N }
+
+\* ... and optionally an empty active segment behind them (a roll done by the cleaner
+\* tick and no publish since): its base offset is the log end (it counts as one of the
+\* MaxSegs segments)
+WithEmptyActive(q) == IF q = <<>> THEN {} ELSE { ss \o <<Last(q) + 1>> : ss \in LayoutsM(q, MaxSegs - 1) }
 
 Shapes ==
   UNION { LET q == AscSeq(S) IN
           { [log |-> [i \in 1..Len(q) |-> Rec(q[i])], segs |-> ss, hw |-> h, ro |-> r] :
-              ss \in Layouts(q), h \in {-1} \cup S, r \in BOOLEAN }
+              ss \in Layouts(q) \cup WithEmptyActive(q), h \in {-1} \cup S, r \in BOOLEAN }
           : S \in SUBSET (0..N - 1) }
+  \* \cup AllGone
 
 Reqs == ReqsFor(N)
 
@@ -54,6 +69,7 @@ MCDrain(id) == last.a # "Sub" /\ DoDrain(id, -1, TRUE) /\ Step([a |-> "Drain", i
 MCPublish == AnyOpen /\ Newest + 1 <= N + 1 /\ DoPublish(<<Rec(Newest + 1)>>) /\ Step([a |-> "Publish"])
 MCTail == AnyOpen /\ Newest + 1 <= N + 1 /\ DoTail(<<Rec(Newest + 1)>>) /\ Step([a |-> "Tail"])
 MCCommit == AnyOpen /\ log # <<>> /\ hw < Last(log).off /\ DoCommit /\ Step([a |-> "Commit"])
+MCRoll == AnyOpen /\ ~ro /\ DoRoll /\ Step([a |-> "Roll"])
 MCReadonly == AnyOpen /\ ~ro /\ DoReadonly(TRUE) /\ Step([a |-> "Readonly", b |-> TRUE])
 \* a clean under a subscriber that has stopped receiving in the middle of the log
 MCClean(gone) == /\ \E id \in SubIds : subs[id].open /\ subs[id].st = "more"
@@ -62,7 +78,7 @@ MCClean(gone) == /\ \E id \in SubIds : subs[id].open /\ subs[id].st = "more"
 MCNext ==
   \/ \E id \in Ids, req \in Reqs, n \in TakeNs : MCSub(id, req, n)
   \/ \E id \in Ids : MCDrain(id)
-  \/ MCPublish \/ MCTail \/ MCCommit \/ MCReadonly
+  \/ MCPublish \/ MCTail \/ MCCommit \/ MCReadonly \/ MCRoll
   \/ \E gone \in SUBSET Cleanable : MCClean(gone)
 
 MCSpec == MCInit /\ [][MCNext]_mcvars
